@@ -269,7 +269,7 @@ func adapterSpec(c *Ctx, dn davNames, fn *ssa.Function, failing bool) DTXSpec {
 				case isNamed(prm.Type(), pkgInternal, "Depth"):
 					args = append(args, kInt(depthVals[in.chooseLabeled("depth", []string{"0", "1", "infinity"})]))
 				case isNamedPtr(prm.Type(), pkgInternal, "PropFind"):
-					args = append(args, Ptr{&Cell{V: Opaque{"propfind", prm.Type()}, T: prm.Type()}})
+					args = append(args, in.symPointee(prm.Type().(*types.Pointer).Elem(), "propfind"))
 				default:
 					args = append(args, Opaque{prm.Name(), prm.Type()})
 				}
@@ -348,6 +348,7 @@ func runC11(c *Ctx, pr *PropertyRun) {
 		sch.RequireRole("wire-struct", "child-element")
 	}
 	addressableMarshalersRule(c, pr, "C11")
+	eagerEncodingRule(c, pr, "C11")
 	// property functions are run long after the table was built
 	loopCaptureRule(c, pr, "C11")
 
@@ -483,7 +484,7 @@ func c11WebdavScope(c *Ctx, r *RuleResult) {
 			in.OpenExternal = openHTTPServer
 		},
 		Args: func(in *Interp) []Val {
-			return []Val{in.symOf(fn.Params[0].Type(), "b"), in.symOf(fn.Params[1].Type(), "r"), Ptr{&Cell{V: Opaque{"propfind", fn.Params[2].Type()}, T: fn.Params[2].Type()}},
+			return []Val{in.symOf(fn.Params[0].Type(), "b"), in.symOf(fn.Params[1].Type(), "r"), in.symPointee(fn.Params[2].Type().(*types.Pointer).Elem(), "propfind"),
 				kInt(depthVals[in.chooseLabeled("depth", []string{"0", "1", "infinity"})])}
 		},
 		Observe: func(in *Interp, res Val, pan *panicOutcome) string {
